@@ -29,7 +29,9 @@ RULE = ("(a) Hypothesis data segments (byte/half/word with 1-6 values incl. nega
         "multiple of 0x800 +-2 for 4 high parts + random; thorough: all 4096 low-12-bit patterns x 14 high parts + random); "
         "(d) the help page's example program yields its documented register values. non-trivial = segment with >=2 "
         "variables of different types and an alignment gap, an indexed access with i >= 1, or a li whose low 12 bits >= "
-        "0x800; distinct = hash(case)")
+        "0x800; distinct = hash(case)"
+        ' Layouts are also loaded under generated data-cache configurations: counters stay 0 and the bytes read through'
+        ' the cache are the layout.')
 ASSUMPTIONS = [
     "strings contain printable ASCII without the double quote, backslash and # (the line grammar cannot carry those)",
     "the last comment of the help example ('!') is an off-by-one in the help text: element 11 of 'Hello, World!' is 'd'",
